@@ -124,6 +124,9 @@ def build(shape, eoe):
         c.add_argument("--cfgc", action="config")
         c.add_argument("--z", type=Dict[str, int])
         sc2.add_subcommand("c", c)
+        dd = ArgumentParser()  # a second inner subcommand, with a required argument of its own
+        dd.add_argument("--need", type=int, required=True)
+        sc2.add_subcommand("d", dd)
     elif shape == "links":
         p.add_argument("--src", type=int, default=2)
         p.add_argument("--tgt", type=int)
@@ -144,16 +147,16 @@ KEYS = {
     "classes": ["m", "m.class_path", "m.init_args", "m.init_args.p", "m.init_args.q", "m.p", "m.q", "m.dict_kwargs", "m.dict_kwargs.z", "ms", "ms+", "ms.init_args.p", "ms.p",
                 "h", "h.init_args.inner", "h.inner", "h.inner.init_args.p", "h.init_args.inner.init_args.p", "h.items", "dm", "dm.k", "dm.k.init_args.p", "um", "grp", "grp.r", "grp.f", "grp.t", "cfg", "m.help", "ms.help", "h.help"],
     "misc": ["call", "ty", "lit", "pr", "pd", "pp", "rs", "lp", "lp+", "choice", "n2", "star", "cfg"],
-    "subcommands": ["top", "cfg", "x", "m", "m.init_args.p", "cfga", "y", "y+", "z", "z.k", "cfgc", "a.x", "b.y", "b.c.z", "subcommand", "sub2"],
+    "subcommands": ["top", "cfg", "x", "m", "m.init_args.p", "cfga", "y", "y+", "z", "z.k", "cfgc", "a.x", "b.y", "b.c.z", "subcommand", "sub2", "b.sub2", "b.d.need", "need"],
     "links": ["src", "tgt", "m", "m.init_args.p", "m.p", "hold.inner", "hold.inner.init_args.p", "hold.items", "cfg"],
 }
-POSITIONALS = {"subcommands": ["a", "b", "c", "zz", "a", "b"], "flat": ["3", "x", "-1", "1.5"], "groups": ["zz"], "classes": ["zz"], "misc": ["zz"], "links": ["zz"]}
+POSITIONALS = {"subcommands": ["a", "b", "c", "zz", "a", "b", "d"], "flat": ["3", "x", "-1", "1.5"], "groups": ["zz"], "classes": ["zz"], "misc": ["zz"], "links": ["zz"]}
 ENV_NAMES = {
     "flat": ["APP_I", "APP_F", "APP_S", "APP_B", "APP_LI", "APP_D", "APP_OE", "APP_T", "APP_U", "APP_ANY", "APP_CFG", "APP_POS", "APP_FLAG"],
     "groups": ["APP_G__X", "APP_G__H__Y", "APP_DC", "APP_DC__INNER__A", "APP_DC__LST", "APP_REQ", "APP_CFG"],
     "classes": ["APP_M", "APP_MS", "APP_H", "APP_DM", "APP_UM", "APP_GRP__R", "APP_GRP__F", "APP_CFG"],
     "misc": ["APP_CALL", "APP_TY", "APP_LIT", "APP_PR", "APP_PD", "APP_PP", "APP_RS", "APP_LP", "APP_CHOICE", "APP_N2", "APP_STAR", "APP_CFG"],
-    "subcommands": ["APP_TOP", "APP_SUBCOMMAND", "APP_A__X", "APP_A__M", "APP_B__Y", "APP_B__SUB2", "APP_B__C__Z", "APP_A__CFGA", "APP_CFG"],
+    "subcommands": ["APP_TOP", "APP_SUBCOMMAND", "APP_A__X", "APP_A__M", "APP_B__Y", "APP_B__SUB2", "APP_B__C__Z", "APP_B__D__NEED", "APP_A__CFGA", "APP_CFG"],
     "links": ["APP_SRC", "APP_TGT", "APP_M", "APP_HOLD__INNER", "APP_CFG"],
 }
 
@@ -191,7 +194,7 @@ GOODPAIRS = {
                 ("h.init_args.inner", ["SubA"]), ("dm", ['{"k": {"class_path": "SubA"}}', "{}"]), ("um", ["1", "SubA"]), ("grp.r", ["[1.5]", "null"]), ("grp.f", ["on", "null"]), ("grp.t", ['[1, "x"]'])],
     "misc": [("call", ["math.sqrt", "abs"]), ("ty", [FX + "SubA", FX + "Base"]), ("lit", ["a", "1", "null"]), ("pr", ["@D@/ok.yaml"]), ("pd", ["@D@", "null"]), ("pp", ["a/b", "x"]), ("rs", ["abc"]),
              ("lp", ['["@D@/ok.yaml"]', "@D@/data.txt"]), ("choice", ["x", "y"]), ("star", ["1.5"]), ("cfg", ['{"rs": "q"}'])],
-    "subcommands": [("top", ["1"]), ("cfg", ['{"top": 2}', '{"subcommand": "a"}', '{"a": {"x": 3}}', '{"b": {"y": [1]}}'])],
+    "subcommands": [("top", ["1"]), ("cfg", ['{"top": 2}', '{"subcommand": "a"}', '{"a": {"x": 3}}', '{"b": {"y": [1]}}', '{"subcommand": "b", "b": {"sub2": "d", "d": {"need": 1}}}'])],
     "links": [("src", ["1", "5"]), ("m", ["SubA", '{"class_path": "SubA", "init_args": {"q": "z"}}']), ("hold.inner", ["SubA", "Base"]), ("hold.items", ['{"a": 1}', "null"]), ("cfg", ['{"src": 3}', "@D@/ok.yaml"])],
 }
 BADPAIRS = {
@@ -201,10 +204,14 @@ BADPAIRS = {
                 ("ms+", ["a.b", "5", '{"class_path": 1}']), ("h.init_args.inner", ["a.b", "5", "Unrelated"]), ("dm.k", ["a.b", "5"]), ("um", ["a.b", "x", "1.5"])],
     "flat": [("i", ["x", "1.5", "", "[1]", "Infinity", "1e999", "NaN", "\u00b2"]), ("yn", ["1", "0", "1.5", "[1]", "{}", "maybe", "null"]), ("f", ["x", "[1]"]), ("li", ["[Infinity]", "[1e999]"]), ("li", ["x", "{}", "[x]"]), ("d", ["x", "[1]", '{"k": "x"}']), ("t", ["[1]", '[1, "a", 2]', "x"]), ("oe", ["purple", "1"]), ("cfg", ["@D@/missing.yaml", "@D@", "{", "5", "[]"])],
     "groups": [("dc", ["5", "[1]", '{"zz": 1}', '{"inner": 5}', "\u00b2", "-\u00b2"]), ("dc.lst", ["5", "[5]", '[{"zz": 1}]']), ("dc.items", ["5", '{"k": 5}']), ("g.h.y", ["0", "-1", "x", ".inf", "-.inf", "1e999", ".nan", "1.5", "Infinity", "-Infinity", "NaN"]), ("g.x", ["Infinity", "1e999", "NaN"]), ("dc.inner.a", ["Infinity", "1e999"]), ("dc.opt", ["5", '{"zz": 1}'])],
-    "subcommands": [("cfg", ['{"a": 5}', '{"a": null}', "? a", '{"b": {"c": 5}}', '{"subcommand": "zz"}', '{"b": {"sub2": "zz"}}', '{"a": {"m": "a.b"}}'])],
+    "subcommands": [("cfg", ['{"subcommand": "b", "b": {"sub2": "d"}}', '{"subcommand": "b", "b": {"y": [1], "sub2": "d"}}', '{"subcommand": "b", "b": {"sub2": "d", "d": {}}}', '{"subcommand": "b", "b": {"sub2": "d", "d": null}}', '{"a": 5}', '{"a": null}', "? a", '{"b": {"c": 5}}', '{"subcommand": "zz"}', '{"b": {"sub2": "zz"}}', '{"a": {"m": "a.b"}}'])],
     "links": [("tgt", ["1"]), ("m.init_args.p", ["1"]), ("src", ["x"]), ("hold.inner", ["a.b", "5"])],
 }
-GOODTAILS = {"subcommands": [["a"], ["a", "--x=2"], ["a", "--m=SubA"], ["b"], ["b", "--y=[1]"], ["b", "c"], ["b", "c", "--z={\"k\": 1}"], ["a", "--cfga", "{\"x\": 5}"], ["b", "--y+=2", "c", "--z.k=3"]],
+WHOLE_SUBCOMMAND_DOCS = ['{"subcommand": "b", "b": {"sub2": "d"}}', '{"subcommand": "b", "b": {"y": [1], "sub2": "d"}}', '{"subcommand": "b", "b": {"sub2": "d", "d": {}}}',
+                         '{"subcommand": "b", "b": {"sub2": "d", "d": null}}', '{"subcommand": "b", "b": {"sub2": "d", "d": {"need": 1}}}', '{"subcommand": "b", "b": {"sub2": "d", "d": {"need": null}}}',
+                         '{"subcommand": "b", "b": {"sub2": "c"}}', '{"subcommand": "b", "b": {"sub2": "c", "c": {"z": {"k": 1}}}}', '{"subcommand": "b"}', '{"subcommand": "b", "b": null}', '{"subcommand": "b", "b": 5}',
+                         '{"subcommand": "a"}', '{"subcommand": "a", "a": null}', '{"b": {"d": {"need": 2}}}', '{"b": {"d": {}}}', '{"subcommand": "b", "b": {"sub2": "zz"}}', '{"subcommand": null}', '{"b": {"sub2": "d"}, "a": {"x": 1}}']
+GOODTAILS = {"subcommands": [["a"], ["a", "--x=2"], ["a", "--m=SubA"], ["b"], ["b", "--y=[1]"], ["b", "c"], ["b", "c", "--z={\"k\": 1}"], ["a", "--cfga", "{\"x\": 5}"], ["b", "--y+=2", "c", "--z.k=3"], ["b", "d", "--need=1"], ["b", "d"]],
              "groups": [["--req=r"]], "flat": [["7"], []], "classes": [[]], "misc": [[]], "links": [[]]}
 
 
@@ -301,7 +308,14 @@ def case_strategy():
                            st.sampled_from(["string", "object-parsed", "object-parsed"])).map(
             lambda t: {"shape": shape, "channel": t[2], "eoe": t[1], "input": dict(t[0], **({"req": "r"} if shape == "groups" else {"subcommand": "a"} if shape == "subcommands" else {}))})
         path = st.tuples(value_strategy(d), st.booleans()).map(lambda t: {"shape": shape, "channel": "path", "eoe": t[1], "input": t[0]})
-        return st.one_of(argv, argv, argv, argv, env, string, doc, doc, gooddoc, gooddoc, baddoc, path)
+        allc = st.one_of(argv, argv, argv, argv, env, string, doc, doc, gooddoc, gooddoc, baddoc, path)
+        if shape == "subcommands":
+            # whole documents that choose subcommands level by level, with and without the section / the required argument of the inner one
+            whole = st.tuples(st.sampled_from(WHOLE_SUBCOMMAND_DOCS), st.booleans(), st.sampled_from(["string", "object"])).map(
+                lambda t: {"shape": shape, "channel": t[2], "eoe": t[1], "input": t[0] if t[2] == "string" else json.loads(t[0])})
+            allc = st.one_of(allc, allc, allc, allc, whole)
+        # every parse method documents a ``defaults`` flag: one case in six is parsed without the parser's defaults
+        return st.tuples(allc, st.integers(0, 5)).map(lambda t: dict(t[0], nodefaults=True) if t[1] == 0 else t[0])
 
     per_shape = {sh: one(sh) for sh in SHAPES}  # built once: strategy construction is the expensive part
     return st.sampled_from(SHAPES).flatmap(lambda sh: per_shape[sh])
@@ -383,15 +397,17 @@ def execute(case, d):
     sys.stdin = io.StringIO("")
     signal.signal(signal.SIGALRM, _alarm)
 
+    kw = {"defaults": False} if case.get("nodefaults") else {}
+
     def main_call():
         if ch == "argv":
-            return p.parse_args(list(inp))
+            return p.parse_args(list(inp), **kw)
         elif ch == "env":
-            return p.parse_env(dict(inp["env"])) if not inp["argv"] else _with_env(p, inp)
+            return p.parse_env(dict(inp["env"]), **kw) if not inp["argv"] else _with_env(p, inp, **kw)
         elif ch == "string":
-            return p.parse_string(inp if isinstance(inp, str) else json.dumps(inp))
+            return p.parse_string(inp if isinstance(inp, str) else json.dumps(inp), **kw)
         elif ch == "object":
-            return p.parse_object(dict(inp))
+            return p.parse_object(dict(inp), **kw)
         elif ch == "object-parsed":
             obj = {}
             for k, v in inp.items():
@@ -399,9 +415,9 @@ def execute(case, d):
                     obj[k] = json.loads(v)
                 except Exception:  # noqa
                     obj[k] = v
-            return p.parse_object(obj)
+            return p.parse_object(obj, **kw)
         elif ch == "path":
-            return p.parse_path(inp)
+            return p.parse_path(inp, **kw)
         raise HarnessError(ch)
 
     def attempt(fn):
@@ -451,10 +467,10 @@ def execute(case, d):
 FOLLOW = [None]
 
 
-def _with_env(p, inp):
+def _with_env(p, inp, **kw):
     os.environ.update(inp["env"])
     p.default_env = True
-    return p.parse_args(list(inp["argv"]))
+    return p.parse_args(list(inp["argv"]), **kw)
 
 
 HELPISH = ("-h", "--help", "--print_config", "--version", "--print_shtab")
@@ -512,6 +528,8 @@ def run_case(ctx, case):
                 verdict = judge(case, kind2, detail2)
         follow = FOLLOW[0]
     ctx.cls(f"channel:{case['channel']}")
+    if case.get("nodefaults"):
+        ctx.cls("parsed-with-defaults=False")
     ctx.cls(f"outcome:{kind}" + (f":{detail[0]}" if kind == "exit" else ""))
     if follow is not None and verdict is None:
         ctx.cls(f"follow-up:{case['then']}:{follow[0]}" + (f":{follow[1][0]}" if follow[0] == "exit" else ""))
